@@ -206,6 +206,31 @@ def seeded_jobs(pids, root: str) -> list:
     return jobs
 
 
+def run_benign(args) -> dict:
+    """A behaviour-preserving refactor (independent sub-agent, suite passes, differential-tested by its author): must stay silent."""
+    sid, pid, patch_path, root = args
+    repo0 = Repo(Path(root))
+    try:
+        overlay = apply_unified_diff(Path(patch_path).read_text(), repo0.read)
+    except Exception as e:
+        return dict(id=sid, pid=pid, status="skipped", why=str(e))
+    t0 = time.time()
+    res = collect(pid, Repo(Path(root), overlay=overlay))
+    rules = sorted({f["rule"] for f in res["new"]})
+    status = "FAILED" if res["new"] else ("UNDECIDED" if res["errors"] else "ok")
+    return dict(id=sid, pid=pid, expect="ok", status=status, rules=rules, undecided=len(res["errors"]), wall=round(time.time() - t0, 2),
+                first=(res["new"][0]["message"][:140] if res["new"] else (res["errors"][0][:140] if res["errors"] else "")))
+
+
+def benign_jobs(pids, root: str) -> list:
+    base = Path(__file__).resolve().parent.parent / "benign"
+    jobs = []
+    for d in sorted(base.glob("C*.diff")):
+        for pid in (pids or [f"C{i:02d}" for i in range(1, 19)]):
+            jobs.append((f"benign/{d.stem}@{pid}", pid, str(d), root))
+    return jobs
+
+
 def run_variant(args) -> dict:
     vid, pid, rel, old, new, expect, rule, root = args
     repo0 = Repo(Path(root))
@@ -226,11 +251,14 @@ def run_variant(args) -> dict:
                 first=(res["new"][0]["message"][:140] if res["new"] else (res["errors"][0][:140] if res["errors"] else "")))
 
 
-def run(pids=None, jobs: int = 16, root: str = str(DEFAULT_REPO)) -> list[dict]:
+def run(pids=None, jobs: int = 16, root: str = str(DEFAULT_REPO), benign: bool = False, only_benign: bool = False) -> list[dict]:
     todo = [v + (root,) for v in VARIANTS if not pids or v[1] in pids]
     sj = seeded_jobs(pids, root)
+    bj = benign_jobs(pids, root) if (benign or only_benign) else []
     with ProcessPoolExecutor(max_workers=jobs) as ex:
-        return list(ex.map(run_variant, todo)) + list(ex.map(run_seeded, sj))
+        if only_benign:
+            return list(ex.map(run_benign, bj))
+        return list(ex.map(run_variant, todo)) + list(ex.map(run_seeded, sj)) + list(ex.map(run_benign, bj))
 
 
 def main(argv=None) -> int:
@@ -239,12 +267,17 @@ def main(argv=None) -> int:
     ap.add_argument("--jobs", type=int, default=16)
     ap.add_argument("--repo", default=str(DEFAULT_REPO))
     ap.add_argument("--json", default=None)
+    ap.add_argument("--benign", action="store_true", help="also run the behaviour-preserving refactors under /verif/benign (must stay silent)")
+    ap.add_argument("--only-benign", action="store_true")
+    ap.add_argument("--quiet", action="store_true", help="print only the lines that are not ok")
     a = ap.parse_args(argv)
-    res = run([p.upper() for p in a.pids] or None, a.jobs, a.repo)
+    res = run([p.upper() for p in a.pids] or None, a.jobs, a.repo, a.benign, a.only_benign)
     for r in res:
-        print(f"{r['id']:9} {r['status']:8} {r.get('expect', ''):4} rules={r.get('rules')} undecided={r.get('undecided')} {r.get('wall', '')}s  {r.get('first') or r.get('why', '')}")
+        if a.quiet and r["status"] == "ok":
+            continue
+        print(f"{r['id']:18} {r['status']:9} {r.get('expect', ''):4} rules={r.get('rules')} undecided={r.get('undecided')} {r.get('wall', '')}s  {r.get('first') or r.get('why', '')}")
     failed = [r for r in res if r["status"] == "FAILED"]
-    print(f"variants={len(res)} ok={sum(r['status'] == 'ok' for r in res)} failed={len(failed)} skipped={sum(r['status'] == 'skipped' for r in res)}")
+    print(f"variants={len(res)} ok={sum(r['status'] == 'ok' for r in res)} failed={len(failed)} undecided={sum(r['status'] == 'UNDECIDED' for r in res)} skipped={sum(r['status'] == 'skipped' for r in res)}")
     if a.json:
         Path(a.json).write_text(json.dumps(res, indent=1))
     return 1 if failed else 0
